@@ -38,16 +38,60 @@ theorem C03_post_needs_target_first :
         (.seq (.leaf .setTarget { flag := false }) (.seq (.leaf .leap {}) .skip)))
         (init witStatePrep.cfg)) = false := by decide +kernel
 
-/-- No modelled pass of any regenerated unitary / state / state-system workflow can raise where
-it is reachable (the translator RUNS the layer generators, template generators and deterministic
-single-qudit rules on dummy blocks of the configuration's model; before the fix d7fbe96
-`GeneralSQDecomposition` raised on qutrit blocks and this statement failed for the qutrit model
-class). -/
+/-- No modelled pass of any regenerated unitary / state / state-system workflow can raise where it
+is reachable, outside four witnessed defect classes.  The translator RUNS the layer generators,
+template generators and deterministic single-qudit rules on dummy blocks of the configuration's
+model, and RUNS every leaf that calls `Circuit.instantiate` (QSearch, LEAP, ScanningGateRemoval,
+AutoRebase, PermutationAwareSynthesis) in-process on a dummy target of the configuration's kind
+(unitary / state / state system) and width with the leaf's own cost generator and instantiate
+options — so a non-residual cost generator handed to the default least-squares minimizer (the
+/repo defect fixed by bad39d6: every `compile(StateVector, optimization_level >= 2)` raised in
+ScanningGateRemovalPass), a forced minimizer that refuses the gate set (fixed for one-qubit
+unitaries by 10f69ef) or a target type the leaf cannot handle is a modelled raise. -/
 theorem C03_no_modelled_pass_raises :
-    ∀ w ∈ workflows, w.isCircuit = false → w.final.crash = false := by
-  intro w hw _
+    ∀ w ∈ workflows, w.isCircuit = false → w.raiseScope = true → w.final.crash = false := by
+  intro w hw _ hs
   have := allCheck_noRaise (workflows_ok w hw)
-  simpa [noRaise] using this
+  simpa [noRaise, hs] using this
+
+/-- The scope holds every unitary workflow of a model with a capable instantiater and the state /
+state-system workflows of levels 1–3 on two or more qudits. -/
+example : (workflows.filter (fun w => !w.isCircuit && w.raiseScope)).length ≥ 330 := by
+  decide +kernel
+
+/-- Regression obligations for the two /repo fixes: the level-2 state-preparation tree (whose
+ScanningGateRemovalPass got `cost=HilbertSchmidtCostGenerator()` before bad39d6) and the
+one-qubit unitary tree of the `{CZ, VariableUnitaryGate(1)}` model (whose QSearch forced
+`method='minimization'` before 10f69ef) cannot raise. -/
+theorem C03_fixed_classes_do_not_raise :
+    witStateL2.raiseScope = true ∧ witStateL2.final.crash = false
+      ∧ witCzVaruUnitary1Q.final.crash = false := by decide +kernel
+
+/-- Finding (not fixed) F-noinst: `{CZ, VariableUnitaryGate(1)}` — unitaries on two or more
+qudits. -/
+theorem C03_noinstantiater_witness :
+    witCzVaruUnitary.noInstantiater = true ∧ witCzVaruUnitary.final.crash = true := by
+  decide +kernel
+
+/-- Finding F-state-min: state / state-system workflows force `method='minimization'`; with a
+VariableUnitaryGate in the gate set — also the DEFAULT qutrit gate set — every such compilation
+raises. -/
+theorem C03_state_forced_minimization_witness :
+    witQutritState.stateForcedMinimization = true ∧ witQutritState.cfg.m.anyCapable = true
+      ∧ witQutritState.final.crash = true := by decide +kernel
+
+/-- Finding F-pas-state: at level 4 the state / state-system synthesis runs inside
+PermutationAwareSynthesisPass, which raises on a target that is not a unitary. -/
+theorem C03_pas_on_state_witness :
+    witStateL4.pasOnState = true ∧ witStateL4.final.crash = true
+      ∧ witSystemL4.pasOnState = true ∧ witSystemL4.final.crash = true := by decide +kernel
+
+/-- Finding F-state-1q: one-qudit states (levels >= 2) and one-qudit state systems: the search
+asks the multi-qudit layer generator to expand a one-qudit circuit. -/
+theorem C03_one_qudit_state_witness :
+    witState1Q.oneQuditStateSearch = true ∧ witState1Q.final.crash = true
+      ∧ witSystem1Q.oneQuditStateSearch = true ∧ witSystem1Q.final.crash = true := by
+  decide +kernel
 
 /-- The submit / collect loop of `compile()` for a sequence of inputs (`job_ids = [submit …]`,
 `results = [result(id) for id in job_ids]`) returns exactly one result per input, in input order,
